@@ -233,6 +233,7 @@ func (p Poly) asAtom() string {
 // ---------------------------------------------------------------------------------------------
 
 type Normer struct {
+	lenDepth    int
 	bodyFrom    map[*ssa.BasicBlock]bool // headers of bottom-tested loops used as "start of the body" (loop test not part of the condition)
 	noRot       bool                     // LoopWhile in progress: do not add loop invariants recursively
 	StripNarrow string                   // callCases: a final conversion of a helper result to this integer type is dropped
@@ -583,7 +584,7 @@ func (n *Normer) normBinOp(x *ssa.BinOp) Poly {
 		if oka && okb && kb != 0 {
 			return pConst(ka % kb)
 		}
-		return pAtom("Mod(" + a.String() + "," + b.String() + ")")
+		return mkMod(a, b)
 	case token.SHL:
 		if k, ok := b.IsConst(); ok && k >= 0 && k < 62 {
 			return pScale(a, 1<<uint(k))
@@ -807,6 +808,32 @@ func (n *Normer) normCall(x *ssa.Call) Poly {
 			args = append(args, n.Norm(a).asAtom())
 		}
 		if b.Name() == "len" && len(args) == 1 {
+			// the length of a parameter is the length of what the calling context passes for it
+			if p, isP := cc.Args[0].(*ssa.Parameter); isP && n.lenDepth < 4 {
+				if _, bound := n.Bind[p]; !bound {
+					if arg, ctx, okA := n.paramArg(p); okA {
+						if _, isSl := arg.(*ssa.Slice); isSl {
+							saved := n.Ctx
+							n.Ctx = ctx
+							n.lenDepth++
+							lo := pConst(0)
+							sl := arg.(*ssa.Slice)
+							var r Poly
+							if sl.High != nil && sl.Max == nil {
+								if sl.Low != nil {
+									lo = n.Norm(sl.Low)
+								}
+								r = pAdd(n.Norm(sl.High), lo, -1)
+							}
+							n.lenDepth--
+							n.Ctx = saved
+							if r != nil {
+								return r
+							}
+						}
+					}
+				}
+			}
 			if mk, ok := cc.Args[0].(*ssa.MakeSlice); ok {
 				return n.Norm(mk.Len) // also when the slice has a role name
 			}
@@ -821,6 +848,16 @@ func (n *Normer) normCall(x *ssa.Call) Poly {
 					lo = n.Norm(sl.Low)
 				}
 				return pAdd(n.Norm(sl.High), lo, -1)
+			}
+		}
+		if b.Name() == "len" && len(cc.Args) == 1 {
+			// the length of a package-level table that is never written is the length of its literal
+			if ld, isLd := cc.Args[0].(*ssa.UnOp); isLd && ld.Op == token.MUL {
+				if _, isG := ld.X.(*ssa.Global); isG {
+					if tv, ok := n.tableVal(cc.Args[0], 0); ok && tv != nil && tv.Kind == VList {
+						return pConst(int64(len(tv.List)))
+					}
+				}
 			}
 		}
 		if b.Name() == "len" || b.Name() == "cap" {
@@ -1045,7 +1082,7 @@ func refPoly(e ast.Expr) (Poly, error) {
 			}
 			return mkDiv(a, b), nil
 		case token.REM:
-			return pAtom("Mod(" + a.String() + "," + b.String() + ")"), nil
+			return mkMod(a, b), nil
 		case token.SHL:
 			if k, ok := b.IsConst(); ok {
 				return pScale(a, 1<<uint(k)), nil
@@ -1466,4 +1503,31 @@ func resultSpillStore(ld *ssa.UnOp) *ssa.Store {
 		}
 	}
 	return last
+}
+
+// mkMod: a % b, with (x % k) % k = x % k for a constant k (true for either sign of x).
+func mkMod(a, b Poly) Poly {
+	if k, ok := b.IsConst(); ok && k != 0 && len(a) == 1 {
+		suffix := "," + b.String() + ")"
+		for m, cf := range a {
+			if cf == 1 && strings.HasPrefix(m, "Mod(") && strings.HasSuffix(m, suffix) && !strings.Contains(m, "*") {
+				// a is itself one Mod(..., k) atom
+				depth, okAtom := 0, true
+				for i, ch := range m {
+					if ch == '(' {
+						depth++
+					} else if ch == ')' {
+						depth--
+						if depth == 0 && i != len(m)-1 {
+							okAtom = false
+						}
+					}
+				}
+				if okAtom {
+					return a
+				}
+			}
+		}
+	}
+	return pAtom("Mod(" + a.String() + "," + b.String() + ")")
 }
